@@ -37,7 +37,7 @@ var (
 // 	2，NTP同步和UTC闰秒(https://en.wikipedia.org/wiki/Leap_second)
 // 设计中增加了时钟回拨标记位，可以让系统在时钟被回拨时仍正确工作
 func currentTimeUnit() int64 {
-	return (time.Now().UTC().UnixNano() - CustomEpoch) / TimeUnit // to centi-seconds
+	return (wallClockNano() - CustomEpoch) / TimeUnit // to centi-seconds
 }
 
 // sequence expired, tick to next time unit
